@@ -23,8 +23,25 @@ BUILD_TARGETS = ["rel", "asan"]
 SECONDS = {"quick": 60, "thorough": 1200}
 
 
+def seed_corpus(name, n=64, size=400):
+    """long pseudo-random inputs: the structure-aware decoders return their minimum once the bytes run out, so short inputs never
+    populate the later keywords; deterministic content (a fixed LCG), written once per build directory"""
+    d = os.path.join(BUILD, "fuzz", name)
+    if not os.path.isdir(d) or len(os.listdir(d)) < n:
+        os.makedirs(d, exist_ok=True)
+        x = 12345
+        for k in range(n):
+            buf = bytearray()
+            for _ in range(size):
+                x = (x * 1103515245 + 12345) & 0x7fffffff
+                buf.append((x >> 16) & 0xff)
+            open(os.path.join(d, "seed%03d" % k), "wb").write(bytes(buf))
+    return d
+
+
 def runner_params(tier, seed):
-    return fuzzrun.campaign(ID, "params", "fuzz_params", tier, seed, SECONDS[tier], max_len=512)
+    return fuzzrun.campaign(ID, "params", "fuzz_params", tier, seed, SECONDS[tier], max_len=512, corpus_dirs=[seed_corpus("seed_params")],
+                            extra_args=["-len_control=0"])
 
 
 def bad_configs(vs):
@@ -48,6 +65,9 @@ def bad_configs(vs):
         ("hist_restraint", "histogramRestraint {\n  name bad\n  colvars %s\n  lowerBoundary 4\n  upperBoundary 0\n  width 1.0\n  refHistogram 0.5 0.5\n}" % v0),
         ("grid_zero_width", "histogram {\n  name bad\n  colvars %s\n  grid {\n    widths 0\n    lowerBoundaries %s\n    upperBoundaries %s\n  }\n}" % (
             v0, fmt(g["lower"]), fmt(g["upper"]))),
+        ("tsf_zero", "harmonic {\n  name bad\n  colvars %s\n  centers 1.0\n  forceConstant 0.5\n  timeStepFactor 0\n}" % vs[-1]["name"]),
+        ("tsf2_negk", "harmonic {\n  name bad\n  colvars %s\n  centers 1.0\n  forceConstant -1.0\n  timeStepFactor 2\n}" % vs[-1]["name"]),
+        ("tsf3_badcenters", "harmonic {\n  name bad\n  colvars %s\n  centers\n  forceConstant 1.0\n  timeStepFactor 3\n}" % v0),
         ("opes_missing", "opes_metad {\n  name bad\n  colvars %s\n  barrier -5\n}" % v0),
         ("alb_bad", "alb {\n  name bad\n  colvars %s\n  centers 1.0 2.0\n  updateFrequency 0\n}" % v0),
         ("colvar_bad_option", "colvar {\n  name bad\n  width -1\n  lowerBoundary 3\n  upperBoundary 1\n  runAve on\n  runAveStride 0\n  distanceZ {\n"
